@@ -139,7 +139,11 @@ func (sh *Shared) buildIntrinsics() {
 		p.noteND(label, "int", t, nil)
 		lo, hi := lift(args[1]), lift(args[2])
 		p.addPC(smt.And(smt.App("bvsle", smt.Bool, lo, t), smt.App("bvsle", smt.Bool, t, hi)))
-		if r := p.checkPC(); r == smt.Unsat {
+		_, cl := args[1].(int)
+		_, ch := args[2].(int)
+		if cl && ch && args[1].(int) <= args[2].(int) {
+			// concrete non-empty range on a fresh variable: satisfiable by construction
+		} else if r := p.checkPC(); r == smt.Unsat {
 			panic(pathAbort{"assume", "empty Int range " + label})
 		}
 		return sym{types.Int, t}
@@ -198,6 +202,11 @@ func (sh *Shared) buildIntrinsics() {
 		}
 		panic(engineError{"GTIDBits"})
 	}
+	m[v+"NewIdleTimer"] = func(fr *frame, args []value) value {
+		t := fr.namedType("time", "Timer")
+		cell := zero(t)
+		return &cell
+	}
 	m[v+"Symbolic"] = func(fr *frame, args []value) value { return true }
 	m[v+"Assume"] = func(fr *frame, args []value) value {
 		p := fr.i.path
@@ -211,6 +220,17 @@ func (sh *Shared) buildIntrinsics() {
 			if r := p.checkPC(); r == smt.Unsat {
 				panic(pathAbort{"assume", "assumption infeasible"})
 			}
+		}
+		return nil
+	}
+	m[v+"Constrain"] = func(fr *frame, args []value) value {
+		switch c := args[0].(type) {
+		case bool:
+			if !c {
+				panic(pathAbort{"assume", "constraint false"})
+			}
+		case sym:
+			fr.i.path.addPC(c.t)
 		}
 		return nil
 	}
@@ -343,6 +363,10 @@ func (sh *Shared) buildIntrinsics() {
 		}
 		return b
 	}
+	m["(*fmt.wrapError).Error"] = func(fr *frame, args []value) value { return (*fr.ptr(args[0])).(structure)[0] }
+	m["(*fmt.wrapError).Unwrap"] = func(fr *frame, args []value) value { return (*fr.ptr(args[0])).(structure)[1] }
+	m["(*fmt.wrapErrors).Error"] = func(fr *frame, args []value) value { return (*fr.ptr(args[0])).(structure)[0] }
+	m["(*fmt.wrapErrors).Unwrap"] = func(fr *frame, args []value) value { return (*fr.ptr(args[0])).(structure)[1] }
 	m["errors.Is"] = func(fr *frame, args []value) value { return fr.errorsIs(args[0].(iface), args[1].(iface)) }
 	m["errors.As"] = func(fr *frame, args []value) value { return fr.errorsAs(args[0].(iface), args[1].(iface)) }
 	m["errors.Unwrap"] = func(fr *frame, args []value) value {
@@ -362,6 +386,36 @@ func (sh *Shared) buildIntrinsics() {
 	for _, n := range []string{"(*sync.Mutex).Lock", "(*sync.Mutex).Unlock", "(*sync.RWMutex).Lock", "(*sync.RWMutex).Unlock",
 		"(*sync.RWMutex).RLock", "(*sync.RWMutex).RUnlock", "(*sync.WaitGroup).Add", "(*sync.WaitGroup).Done", "(*sync.WaitGroup).Wait"} {
 		m[n] = nop
+	}
+	// sync.Map with sequential semantics (side table keyed by the Map's address)
+	smap := func(fr *frame, recv value) *omap {
+		p := fr.ptr(recv)
+		mp := fr.i.syncMaps[p]
+		if mp == nil {
+			any := types.NewInterfaceType(nil, nil)
+			mp = newOmap(fr.i, types.NewMap(any, any))
+			fr.i.syncMaps[p] = mp
+		}
+		return mp
+	}
+	m["(*sync.Map).Load"] = func(fr *frame, args []value) value {
+		v, ok := smap(fr, args[0]).lookup(args[1])
+		if !ok {
+			return tuple{iface{}, false}
+		}
+		return tuple{v, true}
+	}
+	m["(*sync.Map).Store"] = func(fr *frame, args []value) value {
+		smap(fr, args[0]).insert(args[1], args[2])
+		return nil
+	}
+	m["(*sync.Map).Delete"] = func(fr *frame, args []value) value {
+		smap(fr, args[0]).delete(args[1])
+		return nil
+	}
+	m["(*sync.Map).Clear"] = func(fr *frame, args []value) value {
+		delete(fr.i.syncMaps, fr.ptr(args[0]))
+		return nil
 	}
 	m["(*sync.Once).Do"] = func(fr *frame, args []value) value {
 		p := fr.ptr(args[0])
@@ -483,6 +537,58 @@ func (sh *Shared) buildIntrinsics() {
 		}
 		return "<gtidset>"
 	}
+	// ---- strings.Builder (uses unsafe): content kept in the buf field as bytes ----
+	sbBuf := func(fr *frame, recv value) *value {
+		return &(*fr.ptr(recv)).(structure)[1]
+	}
+	sbAppend := func(fr *frame, recv value, s string) {
+		b := sbBuf(fr, recv)
+		cur, _ := (*b).([]value)
+		for i := 0; i < len(s); i++ {
+			cur = append(cur, s[i])
+		}
+		*b = cur
+	}
+	m["(*strings.Builder).WriteString"] = func(fr *frame, args []value) value {
+		s := cstr(fr, args[1])
+		sbAppend(fr, args[0], s)
+		return tuple{len(s), iface{}}
+	}
+	m["(*strings.Builder).WriteByte"] = func(fr *frame, args []value) value {
+		sbAppend(fr, args[0], string([]byte{args[1].(byte)}))
+		return iface{}
+	}
+	m["(*strings.Builder).WriteRune"] = func(fr *frame, args []value) value {
+		s := string(args[1].(rune))
+		sbAppend(fr, args[0], s)
+		return tuple{len(s), iface{}}
+	}
+	m["(*strings.Builder).Write"] = func(fr *frame, args []value) value {
+		p := args[1].([]value)
+		bs := make([]byte, len(p))
+		for i := range p {
+			bs[i] = p[i].(byte)
+		}
+		sbAppend(fr, args[0], string(bs))
+		return tuple{len(p), iface{}}
+	}
+	m["(*strings.Builder).String"] = func(fr *frame, args []value) value {
+		cur, _ := (*sbBuf(fr, args[0])).([]value)
+		bs := make([]byte, len(cur))
+		for i := range cur {
+			bs[i] = cur[i].(byte)
+		}
+		return string(bs)
+	}
+	m["(*strings.Builder).Len"] = func(fr *frame, args []value) value {
+		cur, _ := (*sbBuf(fr, args[0])).([]value)
+		return len(cur)
+	}
+	m["(*strings.Builder).Reset"] = func(fr *frame, args []value) value {
+		*sbBuf(fr, args[0]) = []value(nil)
+		return nil
+	}
+	m["(*strings.Builder).Grow"] = func(fr *frame, args []value) value { return nil }
 	// ---- context ----
 	noopCancel := func(fr *frame) value {
 		pkg := fr.i.prog.ImportedPackage(verifndPath)
